@@ -191,6 +191,31 @@ static void init(void) {
   g_active = 1;
 }
 
+/* Re-configures the shim inside a long-lived process (the dbsim worker forks one
+ * child per history and the child calls this before touching any file). */
+void simos_reset(const char *root, const char *plan, const char *trace, const char *clk) {
+  init();
+  memset(g_rules, 0, sizeof g_rules); g_nrules = 0;
+  memset(g_paths, 0, sizeof g_paths); g_npaths = 0;
+  memset(g_fd2path, 0, sizeof g_fd2path);
+  g_seq = 0; g_clock_on = 0; g_clock_n = 0;
+  if (g_tracefd >= 0) { syscall(SYS_close, g_tracefd); g_tracefd = -1; }
+  g_active = 0;
+  if (!root || root[0] != '/') return;
+  strncpy(g_root, root, PATH_LEN - 2);
+  g_rootlen = strlen(g_root);
+  while (g_rootlen > 1 && g_root[g_rootlen - 1] == '/') g_root[--g_rootlen] = 0;
+  if (trace && trace[0]) g_tracefd = (int)syscall(SYS_openat, AT_FDCWD, trace, O_WRONLY | O_CREAT | O_APPEND | O_CLOEXEC, 0644);
+  if (plan && plan[0]) parse_plan(plan);
+  if (clk && clk[0]) {
+    g_clock_on = 1;
+    g_clock_base = atoll(clk);
+    const char *c = strchr(clk, ':');
+    g_clock_step = c ? atoll(c + 1) : 1;
+  }
+  g_active = 1;
+}
+
 /* Lexically normalises path (absolute, no . or .. or //) into out. */
 static int normalise(const char *path, char *out, size_t outlen) {
   char tmp[PATH_LEN * 2];
